@@ -19,7 +19,7 @@ use std::collections::BTreeMap;
 pub type Args = BTreeMap<String, String>;
 
 /// Watchdog state: the trace of the case being executed, the operation in progress, a progress
-/// counter.  When nothing progresses for `watchdog=<secs>` (default 20) the case is reported as
+/// counter.  When nothing progresses for `watchdog=<secs>` (default 45) the case is reported as
 /// deadlocked: the partial trace is printed with a final `ret=deadlock` line and the process exits 3.
 pub static PROGRESS: std::sync::atomic::AtomicU64 = std::sync::atomic::AtomicU64::new(0);
 pub static CUR_TRACE: parking_lot::Mutex<String> = parking_lot::Mutex::new(String::new());
@@ -70,7 +70,7 @@ fn main() {
             args.insert(k.to_string(), v.to_string());
         }
     }
-    spawn_watchdog(arg_u64(&args, "watchdog", 20));
+    spawn_watchdog(arg_u64(&args, "watchdog", 45));
     let code = match domain.as_str() {
         "mem" => mem::main(&args),
         "memc" => memc::main(&args),
